@@ -62,6 +62,23 @@ def run(ctx):
             fmt.edit_in_place(lq, spec, rnd, 4)
             add("sampler%d.loaded-edited" % k, lq)
             add("sampler%d.clone-edited" % k, api.Synth(lq.module.clone()))
+    # error path: a synth without a module refuses to serialize - and has written nothing by then (write_to into a sink)
+    for how in ("write_to", "read"):
+        buf = []
+        class Sink:
+            def write(self, b):
+                buf.append(bytes(b))
+        try:
+            if how == "write_to":
+                api.Synth().write_to(Sink())
+            else:
+                buf.append(api.Synth().read())
+            out = "ok"
+        except api.Synth.__init__.__globals__["EmptySynthError"]:
+            out = "EmptySynthError"
+        except Exception as e:
+            out = "exception:" + type(e).__name__
+        traces.append({"id": "empty-synth-" + how, "events": [{"op": "emptysynth", "outcome": out, "written": sum(len(b) for b in buf)}]})
     cans = []
     def canary(name, mut):
         c = json.loads(json.dumps(traces[len(cans) * 3]))
